@@ -306,6 +306,15 @@ func (rt roundTripper) RoundTrip(req *http.Request) (*http.Response, error) {
 		req.Header.Del("X-Lab-Unknown-Length")
 		r2.ContentLength = -1
 	}
+	if r2.Header.Get("X-Lab-Cancel-At-EOF") != "" {
+		// the sender hangs up as soon as its last byte is out: the request context is cancelled when the body has been read
+		r2.Header.Del("X-Lab-Cancel-At-EOF")
+		req.Header.Del("X-Lab-Cancel-At-EOF")
+		cctx, cancel := context.WithCancel(r2.Context())
+		defer cancel()
+		r2 = r2.WithContext(cctx)
+		r2.Body = &cancelAtEOF{r: bytes.NewReader(body), cancel: cancel}
+	}
 	rec := httptest.NewRecorder()
 	rt.h.ServeHTTP(rec, r2)
 	status := rec.Code
@@ -445,3 +454,17 @@ func (w *World) TO2(ctx context.Context, d *Device, to1d *cose.Sign1[protocol.To
 	}
 	return cred, nil
 }
+
+type cancelAtEOF struct {
+	r      *bytes.Reader
+	cancel func()
+}
+
+func (c *cancelAtEOF) Read(p []byte) (int, error) {
+	n, err := c.r.Read(p)
+	if c.r.Len() == 0 {
+		c.cancel()
+	}
+	return n, err
+}
+func (c *cancelAtEOF) Close() error { return nil }
